@@ -451,7 +451,7 @@ func (b *breakConn) Write(p []byte) (int, error) {
 // afterwards makes its calls as if nothing had happened.
 func c10BreakUnderLoad(c *ev.Ctx) {
 	defer runtime.GOMAXPROCS(runtime.GOMAXPROCS(8))
-	for round := 0; round < c.Sz(6, 60); round++ {
+	for round := 0; round < c.Sz(32, 200); round++ {
 		if !c.Mine(round + 2) {
 			continue
 		}
@@ -488,7 +488,7 @@ func c10BreakUnderLoad(c *ev.Ctx) {
 		}
 		cc := &c10Client{fs: fs, cl: cl, root: root, files: files, fids: fids}
 		fs.Handler = func(s *fakesrv.Server, rq *fakesrv.Req) {} // nothing is answered any more
-		const N = 300
+		const N = 600
 		var wg sync.WaitGroup
 		results := make([]string, N+1)
 		wg.Add(1)
